@@ -30,6 +30,7 @@ trace <i> SCRIPT :: <sys>…        -> <i> trace <accept|reject@pos> <match|expe
                                                  failed rename, unlink of the temp file, D = dest touched)
 kill <i> <syscall>:<N> SCRIPT :: <same|L:FNV>   -> <i> kill <ok|BAD>   (destination observed after SIGKILL on
                                                   entry to the N-th such syscall on the two paths)
+wsstorm <i> <cap> <outcap> <chunk> <obs>… SCRIPT :: …  -> as storm (the crate's WebSocketServer, off-reader cap saturated)
 storm <i> <ok|D / err|D>… SCRIPT :: …       -> <i> storm <ok|BAD>  (12+ pulls through one client, one of them cut)
 par <i> <N> <0|1> SCRIPT :: SCRIPT :: …     -> <i> | ret .. dest .. tmp .. | …   (async pulls run concurrently on a
                                      runtime with N blocking threads, through one shared client or one each)
@@ -252,6 +253,21 @@ def valueObs (mode : String) (comp : Comp) (need : Nat) (dec : Option Bytes) (op
   | some bs => if base = "consumeerr" then "ret err" else "ret ok " ++ digest bs
   | none => "ret err"
 
+/-- pulls sharing one client when its connection is cut (or its server saturates): which got through is timing;
+each observed outcome (recorded on the line) must be one this pull admits: (ok, its complete content) or
+(err, unchanged) -/
+def stormObs (idx : String) (rest : List String) : String :=
+  let obs := rest.takeWhile fun w => w.startsWith "ok|" ∨ w.startsWith "err|"
+  match parseMany (rest.drop obs.length) with
+  | some qs =>
+    if qs.length ≠ obs.length then idx ++ " bad-op" else
+    let okAll := (qs.zip obs).all fun (q, o) =>
+      let r := runOf q
+      let full := destWord none r.ops
+      o = "err|same" ∨ (r.ret = .ok ∧ o = "ok|" ++ full)
+    joinSp [idx, "storm", if okAll then "ok" else "BAD"]
+  | none => idx ++ " bad-op"
+
 def step (st : Unit) (ws : List String) : Unit × String :=
   match ws with
   | "script" :: idx :: rest =>
@@ -271,19 +287,8 @@ def step (st : Unit) (ws : List String) : Unit × String :=
         (st, joinSp [idx, "trace", acc, if same then "match" else "expected:" ++ ",".intercalate (want.map showSys)])
       | none => (st, idx ++ " bad-op")
     | none => (st, idx ++ " bad-op")
-  | "storm" :: idx :: rest =>
-    -- pulls sharing one client when its connection is cut: which got through is timing; each observed outcome
-    -- (recorded on the line) must be one this pull admits: (ok, its complete content) or (err, unchanged)
-    let obs := rest.takeWhile fun w => w.startsWith "ok|" ∨ w.startsWith "err|"
-    match parseMany (rest.drop obs.length) with
-    | some qs =>
-      if qs.length ≠ obs.length then (st, idx ++ " bad-op") else
-      let okAll := (qs.zip obs).all fun (q, o) =>
-        let r := runOf q
-        let full := destWord none r.ops
-        o = "err|same" ∨ (r.ret = .ok ∧ o = "ok|" ++ full)
-      (st, joinSp [idx, "storm", if okAll then "ok" else "BAD"])
-    | none => (st, idx ++ " bad-op")
+  | "wsstorm" :: idx :: _cap :: _outcap :: _chunk :: rest => (st, stormObs idx rest)
+  | "storm" :: idx :: rest => (st, stormObs idx rest)
   | "par" :: idx :: _bp :: _shared :: rest =>
     -- concurrent pulls into different destinations: each as if alone (`pulls_do_not_interfere`)
     match parseMany rest with
